@@ -22,8 +22,8 @@ from vt.oracles import constraint_semantics as CS
 
 ID = 'C02'
 TIERS = {
-    'quick': dict(shards=16, cases=330, watchdog_s=900),
-    'thorough': dict(shards=16, cases=19000, watchdog_s=7000),
+    'quick': dict(shards=16, cases=1200, watchdog_s=900),
+    'thorough': dict(shards=16, cases=40000, watchdog_s=7000),
 }
 RULE = ('case = frame spec (C01 generator) + constraint set derived from its data (bounds on / just inside / just '
         'outside each extreme incl. the fuzzy thresholds for epsilon 0.01 and 0.5, every precision, all sign classes, '
